@@ -223,7 +223,10 @@ class DefGen:
                 sub_allint = self.allint.pop(subname)
                 inline = dict(sub)
                 # nested tags come from a small pool: unrelated structures often declare their own 'struct item {..}'
-                inline["name"] = None if rng.random() < 0.6 else rng.choice(NESTED_TAGS)
+                used_tags = {x["inline"]["name"] for x in fields if x["inline"] is not None}
+                free = [t for t in NESTED_TAGS if t not in used_tags]
+                # an anonymous member is known by its type name, so it keeps the generated (unique) anonymous type
+                inline["name"] = None if (anon or not free or rng.random() < 0.6) else rng.choice(free)
                 f["inline"] = inline
                 if anon:
                     f["name"] = None
